@@ -269,9 +269,55 @@ structure FoldState where
   lastInstrHead : Option Instr
 deriving Repr, Inhabited
 
+/-! ## streams (`value_types/stream/*.rs`) and canon streams -/
+
+/-- `ValuesMatrix`: values per generation; `size` counts the values ever added -/
+structure ValuesMatrix where
+  values : List (List ValueAggregate) := []
+  size : Nat := 0
+deriving Repr, Inhabited
+
+/-- `Stream`: values from the previous data, from the current data, and produced in this run -/
+structure Stream where
+  prev : ValuesMatrix := {}
+  cur : ValuesMatrix := {}
+  new : ValuesMatrix := {}
+deriving Repr, Inhabited
+
+inductive Generation where
+  | previous (g : Nat)
+  | current (g : Nat)
+  | new
+deriving Repr, DecidableEq, Inhabited
+
+/-- `StreamDescriptor`: a stream instance with the span of the `new` that scopes it (global: `0..usize::MAX`) -/
+structure StreamDesc where
+  spanLeft : Nat
+  spanRight : Nat
+  stream : Stream
+deriving Repr, Inhabited
+
+structure StreamCursor where
+  prevStart : Nat := 0
+  curStart : Nat := 0
+  newStart : Nat := 0
+deriving Repr, DecidableEq, Inhabited
+
+structure CanonStream where
+  values : List ValueAggregate
+  tetraplet : Tetraplet
+deriving Repr, Inhabited
+
+/-- `CanonStreamWithProvenance` -/
+structure CanonStreamWP where
+  canonStream : CanonStream
+  cid : Cid
+deriving Repr, Inhabited
+
 structure Scalars where
   nonIterable : SparseMatrix ValueAggregate := {}
   iterable : List (String × FoldState) := []
+  canonStreams : SparseMatrix CanonStreamWP := {}
 deriving Repr, Inhabited
 
 /-! ## CID state -/
@@ -286,11 +332,37 @@ def ServiceResultAgg.json (a : ServiceResultAgg) : String :=
   "{\"value_cid\":" ++ renderStr a.valueCid ++ ",\"argument_hash\":" ++ renderStr a.argumentHash ++
   ",\"tetraplet_cid\":" ++ renderStr a.tetrapletCid ++ "}"
 
+def Provenance.json : Provenance → String
+  | .literal => "{\"type\":\"literal\"}"
+  | .serviceResult cid => "{\"type\":\"service_result\",\"cid\":" ++ renderStr cid ++ "}"
+  | .canon cid => "{\"type\":\"canon\",\"cid\":" ++ renderStr cid ++ "}"
+
+/-- `CanonCidAggregate`: one element of a canonicalised stream -/
+structure CanonElemAgg where
+  value : Cid
+  tetraplet : Cid
+  provenance : Provenance
+deriving Repr, DecidableEq, Inhabited
+
+def CanonElemAgg.json (a : CanonElemAgg) : String :=
+  "{\"value\":" ++ renderStr a.value ++ ",\"tetraplet\":" ++ renderStr a.tetraplet ++ ",\"provenance\":" ++ a.provenance.json ++ "}"
+
+/-- `CanonResultCidAggregate` -/
+structure CanonResultAgg where
+  tetraplet : Cid
+  values : List Cid
+deriving Repr, DecidableEq, Inhabited
+
+def CanonResultAgg.json (a : CanonResultAgg) : String :=
+  "{\"tetraplet\":" ++ renderStr a.tetraplet ++ ",\"values\":[" ++ ",".intercalate (a.values.map renderStr) ++ "]}"
+
 /-- stores as association lists keyed by CID (`HashMap` with keyed access only) -/
 structure CidState where
   values : List (Cid × String) := []              -- raw JSON text
   tetraplets : List (Cid × Tetraplet) := []
   serviceResults : List (Cid × ServiceResultAgg) := []
+  canonElements : List (Cid × CanonElemAgg) := []
+  canonResults : List (Cid × CanonResultAgg) := []
 deriving Repr, Inhabited
 
 def upsert {β} (l : List (String × β)) (k : String) (v : β) : List (String × β) :=
@@ -343,6 +415,10 @@ structure Ctx where
   /-- `PeerCidTracker.cids` (registered only for the current peer) -/
   peerCids : List Cid := []
   th : TraceHandler
+  /-- `Streams`: name ↦ stack of descriptors (innermost `new` scope last) -/
+  streams : List (String × List StreamDesc) := []
+  /-- `InstructionTracker.fold.seen_stream_count` (source of fold ids) -/
+  foldStreamCount : Nat := 0
 deriving Repr
 
 structure St where
